@@ -30,6 +30,13 @@ var (
 	// re-election of an expired RFC 9520 failure probe. The limit belongs to
 	// one request cohort and must never create shared failure-cache state.
 	ErrFailureProbeLimit = errors.New("failure probe retry limit exceeded")
+
+	// ErrResolutionCapacity identifies a resolution shed because the
+	// resolver's own in-flight capacity (the global pool or one zone's quota)
+	// was exhausted. It describes this resolver's load at one instant, not
+	// the question or its authorities, so it must never create shared
+	// failure-cache state.
+	ErrResolutionCapacity = errors.New("resolver at in-flight capacity")
 )
 
 // ResolutionAttemptLimitError records the tuple rejected by the RFC 9520
@@ -412,6 +419,7 @@ func IsRequestLocalResolutionError(err error) bool {
 	return errors.Is(err, ErrRecursionWorkLimit) ||
 		errors.Is(err, ErrResolutionAttemptLimit) ||
 		errors.Is(err, ErrFailureProbeLimit) ||
+		errors.Is(err, ErrResolutionCapacity) ||
 		errors.Is(err, ErrMaxRecursion) ||
 		errors.Is(err, context.Canceled) ||
 		errors.Is(err, context.DeadlineExceeded)
